@@ -271,6 +271,9 @@ func (e *Engine) solveOne(o *Obl, header string, dir string, quickT, raceT int) 
 	}
 	total := 0.0
 	hasFP := strings.Contains(o.Goal.S, "fp.") || strings.Contains(script[strings.Index(script, "; ---- function"):], "fp.") || len(o.fe.conReveal()) > 0
+	if strings.Contains(o.Goal.S, "(mod ") {
+		hasFP = true // remainder arithmetic: z3 5.x is often slow where z3 4.8 / cvc5 are instant -- race at once
+	}
 	if !hasFP {
 		r := runSolver(context.Background(), solverZ3New, z3file, quickT)
 		total += r.secs
